@@ -18,6 +18,8 @@ LayoutVerdict(e) ==
 ByNameVerdict(e) ==
   IF e.byindexok[MatOf(e.n, e.c + 1)] = 0 THEN "ByIndexTotal"
   ELSE IF e.bynameok = 0 THEN "ByNameTotal"
+  \* the by-index result itself is the plain array reduction / slice along that matrix axis
+  ELSE IF e.byindex[MatOf(e.n, e.c + 1)] # e.plain[MatOf(e.n, e.c + 1)] THEN "ByIndexIsArrayOperation"
   ELSE IF e.byname # e.byindex[MatOf(e.n, e.c + 1)] THEN "ByNameSelectsSameData"
   ELSE IF e.bynamemeta # e.byindexmeta[MatOf(e.n, e.c + 1)] THEN "ByNameSamePlacement"
   ELSE "ok"
